@@ -174,7 +174,7 @@ impl Ctx {
             choices.extend_from_slice(&[23, 24, 24, 25, 25, 26]);
         }
         if kind == Kind::Rev {
-            choices = vec![2, 3, 4, 4, 5, 5, 6, 6, 7, 7, 7, 8, 8, 8, 9, 9, 10, 10, 13, 15, 15, 16, 17, 20, 21];
+            choices = vec![2, 3, 4, 4, 5, 5, 6, 6, 7, 7, 7, 8, 8, 8, 9, 9, 10, 10, 13, 15, 15, 16, 17, 19, 19, 20, 21];
         }
         let mut c = *self.rng.pick(&choices);
         let mut oracle = Vec::new();
@@ -617,7 +617,9 @@ impl Ctx {
                 csv(&step.bombs),
                 if post_cap == usize::MAX { 0 } else { post_cap }
             );
-            if !zst && !step.op.modelled() {
+            // (`MutBumpVecRev::extend_from_within_clone` is not modelled: oracles only)
+            let rev_within = spec.kind == Kind::Rev && matches!(&step.op, Op::ExtendWithinClone(..));
+            if !zst && (!step.op.modelled() || rev_within) {
                 // checked by the oracles only; the model is re-synchronised with what the vector holds now
                 let _ = writeln!(
                     self.out,
@@ -864,7 +866,7 @@ impl Ctx {
                     }
                 }
                 // ---- variants: the same operation from the same state with a panic at every callback index
-                if allow_variants && !zst {
+                if allow_variants {
                     let mut ks: Vec<usize> = (0..step.oracle.len()).collect();
                     while ks.len() > self.max_variants_per_step {
                         let i = self.rng.below(ks.len() as u64) as usize;
@@ -885,7 +887,13 @@ impl Ctx {
                         });
                     }
                     // … and with each value that the operation dropped panicking in its `Drop`
-                    let mut ds = drops.clone();
+                    // (zero-sized values have no identity: the k-th destructor call panics, k = 0, 1, 2)
+                    let mut ds = if zst {
+                        let n = zcounts().1 - zc_before.1;
+                        (0..n.min(3)).collect::<Vec<u64>>()
+                    } else {
+                        drops.clone()
+                    };
                     while ds.len() > self.max_variants_per_step / 2 {
                         let i = self.rng.below(ds.len() as u64) as usize;
                         ds.remove(i);
